@@ -6,7 +6,7 @@ membership in concrete containers (through the instrumented `in`, see sx.instrum
 Alphabet: the harness states it (printable ASCII by default); case mapping of non-ASCII text is outside the model.
 """
 import z3
-from .sym import SInt, SBool, OutOfModel, ctx, in_message_context
+from .sym import SInt, SBool, OutOfModel, ctx, in_message_context, Ctx
 
 
 def _cp(c):
@@ -107,6 +107,12 @@ class SStr:
         return (not r) if isinstance(r, bool) else ~r
 
     def __hash__(self):
+        c = ctx()
+        if c.collide:
+            # collide mode: every string object hashes alike, equality (a solver fork) decides; faithful when all keys of the
+            # container are SStr objects, which _norm guarantees in this mode by not collapsing concrete strings
+            c.hashes += 1
+            return 0x5A5B
         if self.concrete():
             return hash(''.join(self.c))
         raise OutOfModel('hash of a symbolic string (instrument the membership test)')
@@ -216,7 +222,7 @@ class SStr:
 
 def _norm(s):
     """collapse to a plain str when nothing symbolic is left"""
-    if s.concrete():
+    if s.concrete() and not (Ctx.cur is not None and Ctx.cur.collide):
         return ''.join(s.c)
     return s
 
